@@ -442,6 +442,9 @@ META = (META[0] + ' ALIASSTR (an argument that may refer to the string itself is
 META = (META[0] + ' FIELDCAST (a value stored into the size member is converted to that member type, not to a fixed narrower type; controls in fixtures/extra10_pos.hpp).', META[1])
 
 
+META = (META[0] + ' CHARCAST (the generic char_traits convert a character to a fixed narrow type only under is_same_v<char_type, char>).', META[1])
+
+
 def run(chk, tier):
     db = D.load("checks")
     from ..rules import params as _PR
@@ -486,6 +489,9 @@ def run(chk, tier):
     if _X10.field_cast_area(chk, db, ['_string/']) < 1:      # FIELDCAST
         chk.analysis_broken('FIELDCAST: no store into the size member of the string found (floor 1)')
     _X10.positive_controls(chk, D, ('FIELDCAST',))
+    from ..rules import extra10 as _X10c
+    if _X10c.char_cast_area(chk, db, ('_string/char_traits.hpp',)) < 2:      # CHARCAST
+        chk.analysis_broken('CHARCAST: fewer than 2 narrowing conversions of a character found in char_traits (floor 2)')
     from ..rules import exits as _EXW
     if _EXW.pos_wrap_area(chk, db, ['_string/', '_strings/', '_string_view/']) < 3:      # WRAP
         chk.analysis_broken('WRAP: fewer than 3 members that add to a position argument (floor 3)')
